@@ -4,10 +4,10 @@
     tessellator, the projections, findEndVertex/SubsampleVertices and CellIDSnapper.SnapPoint are the
     hand-written models of Model/Approx.v, tied to the Go code bit for bit by the correspondence.
     Accuracy sentences carry the named hypotheses H_TESS, H_TESS_TERM (never OutOfFuel), H_SNAP,
-    H_RTE_INT; H_SUBSAMPLE and H_LIBM (Project o Unproject ~ id) have no closed part and are attacked by
+    (H_RTE_INT is discharged: round_to_even_is_integer_valued); H_SUBSAMPLE and H_LIBM (Project o Unproject ~ id) have no closed part and are attacked by
     the search only. *)
 From Coq Require Import ZArith Reals Floats Bool List Sorted.
-From Geo Require Import Base.GoPrim Base.F64 Gen.Approx Model.Approx Proofs.C20_Approx.
+From Geo Require Import Base.GoPrim Base.F64 Gen.Approx Model.Approx Proofs.C20_Approx Proofs.C20_RoundToEven.
 From Geo Require Import Gen.CellIDFull.  (* s2_xyzToFaceUV *)
 Import ListNotations.
 
@@ -73,7 +73,14 @@ Theorem cellid_snap_lands_on_level_grid : forall level p, (0 <= level <= 30)%Z -
 Proof. exact cellid_snap_on_grid. Qed.
 Print Assumptions cellid_snap_lands_on_level_grid.
 
-Theorem intlatlng_snap_lands_on_degree_grid : H_RTE_INT -> forall sf p,
+(** math.RoundToEven (the toolchain's bit manipulation, translated) is integer-valued on every finite float:
+    closed (Proofs/C20_RTE_Arith.v, C20_RoundToEven.v); it was the carried hypothesis H_RTE_INT *)
+Theorem round_to_even_is_integer_valued : forall x, go_isnan x = false -> go_isinf x 0 = false ->
+  exists k : Z, PrimFloat.eqb (math_RoundToEven x) (float_of_Z k) = true.
+Proof. exact rte_int. Qed.
+Print Assumptions round_to_even_is_integer_valued.
+
+Theorem intlatlng_snap_lands_on_degree_grid : forall sf p,
   let ll := s2_LatLngFromPoint p in
   let slat := PrimFloat.mul (s1_Angle_Degrees (s2_LatLng_Lat ll)) (s2_IntLatLngSnapper_from sf) in
   let slng := PrimFloat.mul (s1_Angle_Degrees (s2_LatLng_Lng ll)) (s2_IntLatLngSnapper_from sf) in
@@ -82,7 +89,7 @@ Theorem intlatlng_snap_lands_on_degree_grid : H_RTE_INT -> forall sf p,
     s2_IntLatLngSnapper_SnapPoint sf p =
       s2_PointFromLatLng (s2_LatLngFromDegrees (PrimFloat.mul L (s2_IntLatLngSnapper_to sf)) (PrimFloat.mul G (s2_IntLatLngSnapper_to sf))) /\
     PrimFloat.eqb L (float_of_Z k) = true /\ PrimFloat.eqb G (float_of_Z m) = true.
-Proof. exact intlatlng_snap_on_grid. Qed.
+Proof. exact (intlatlng_snap_on_grid rte_int). Qed.
 Print Assumptions intlatlng_snap_lands_on_degree_grid.
 
 Theorem intlatlng_grid_unit_is_power_of_ten : forallb (fun e =>
